@@ -142,6 +142,7 @@ def gen_base(rng, nboards=None):
     nb = nboards if nboards is not None else rng.choice((1, 2, 2, 3))
     table = rng.choice(('bundled', 'scripted', 'mixed'))
     scn = gen.gen_s1(rng, nboards=nb, table=table)
+    scn['prelude'] = None       # abort scenarios are about one table manager
     scn['decision_seed'] = rng.randrange(1 << 40)
     return scn
 
